@@ -245,6 +245,19 @@ impl IndexHunkIter {
         self.hunks.len()
     }
 
+    /// Hunks are written numbered from zero with no gaps: if one is absent although a
+    /// later one is present, return its number.
+    pub(crate) fn missing_hunk(&self) -> Option<u32> {
+        let mut expected = 0;
+        for present in self.hunks.as_slice() {
+            if *present != expected {
+                return Some(expected);
+            }
+            expected += 1;
+        }
+        None
+    }
+
     /// Take the errors from any hunks that were skipped because they could not be read.
     pub fn take_errors(&mut self) -> Vec<Error> {
         std::mem::take(&mut self.errors)
